@@ -31,7 +31,10 @@ class Prop(ConnProp):
             "close, owner destruction, clock advances, loop iterations; 22% of the histories contain a crossing block (a send "
             "that crosses the high-water mark while the kernel takes only the head of the block - relative short write -, "
             "optionally over an existing backlog, with a callback script on the high-water callback that sends / shuts down / "
-            "force-closes: its effect must land after the block being queued); flavours asserts-on/NDEBUG x epoll/poll; non-trivial = "
+            "force-closes: its effect must land after the block being queued), 8% a pause block (stopRead/startRead issued "
+            "back to back from another thread before the loop has seen the first, in both orders and longer runs, then peer "
+            "writes: the request made last decides; oracle pause_oracle: up, reading per an independent replay of the requests, "
+            "peer bytes waiting => the iteration reads), 6% end with functors outliving the connection; flavours asserts-on/NDEBUG x epoll/poll; non-trivial = "
             "at least one callback ran; distinct = distinct observation traces. Plus free-running TcpServer scenarios "
             "(vlib/server_free.py: N in 0..3 io threads, 127.0.0.1 / ::1 / a long v4-mapped IPv6 listen address, kernel-chosen port, "
             "epoll/poll, 1..12 concurrent raw-socket peers, block sizes 0..200000, echo + server-initiated blocks from the io "
@@ -42,7 +45,7 @@ class Prop(ConnProp):
             "extrabuf while the other io threads do the same; per-connection content check), oracle only")
     trusted_base = TRUSTED
     assumptions = ASSUME
-    oracles = [conn_oracle.stream_oracle, conn_oracle.read_oracle]
+    oracles = [conn_oracle.stream_oracle, conn_oracle.read_oracle, conn_oracle.pause_oracle]
     profile = {"closes": True}
 
     def correspondence(self, ctx, replay=None):
